@@ -83,6 +83,13 @@ TEXT["C20"] = {
     "design_ref": "DESIGN.md section 3, C20",
 }
 
+TEXT["C03"] = {
+    "technique": "property-based testing (rapid) + enumeration of (target x route) + model-based call histories; observable probe tag/filter, differential banned-set vs unbanned-set",
+    "text": "Every registered tag and filter (read through the registry hook, plus a probe tag and probe filter whose parsing/execution is counted) is banned in one set and used through generated routes: 24 expression positions x nested statement bodies (14 kinds, depth <= 3) x 9 file-composition routes (includes static/nested/lazy, extends parent/child, imported macro, ssi parsed). The template must fail to compile (lazy include: to execute), the probe counters must stay zero, a banned include must fetch nothing, the same template must be usable in an unbanned set, and an unbanned twin must render identically in both sets. All targets x single-wrapper routes x file routes are enumerated. Call histories over Ban*/From*/Render*/probes on two sets are compared with a (banned tags, banned filters, frozen) model.",
+    "note": "Trusted: the probe registration and the route table in harness/props/c03_test.go. Syntax forms that are invalid today are only covered where listed as speculative routes.",
+    "design_ref": "DESIGN.md section 3, C03",
+}
+
 PENDING_REASON = "check not built yet in this build phase (DESIGN.md section 3 describes the planned PBT check); will be claimed once its quick tier is silent on the unchanged tree and kills its mutants"
 
 
